@@ -255,6 +255,15 @@ def walk_fields(v, out):
         out.append(v[1][2])
 
 
+def raw_ok(props, options):
+    """css_raw_ok of proofs/CssFormatStream.v on a snapshot: no line feed in a FunctionCall name nor in stylesheet.after."""
+    def ok(v):
+        if v[0] == 'fn':
+            return '\n' not in v[1] and all(ok(x) for a in v[2] for x in a)
+        return True
+    return '\n' not in options['stylesheet.after'] and all(ok(x) for p in props for cv in p[1] for x in cv)
+
+
 def css_oracle(final, events, props, options):
     """C13 on one stylesheet run.
     (1) every callback: the string it returned sits at the offset it was told, offsets are contiguous and
